@@ -10,7 +10,8 @@ RULE = ("Hypothesis-generated graph cases x outcome maps with 0-4 non-success en
         "signal, launch failure via EAGAIN from fork or an exec-failure record) x schedule tapes x --jobs x "
         "{default, --stop-early}. Oracle = model fixed point of started/succeeded/failed/skipped over the needed "
         "set vs. spawn log, report sections, exit status and the killpg log. Non-trivial = >=1 failure that has >=1 "
-        "transitive dependent in the needed set AND >=1 needed task independent of it. Distinct = SHA-1 of case JSON.")
+        "transitive dependent in the needed set AND >=1 needed task independent of it. Distinct = SHA-1 of case JSON."
+        " A quarter of the cases come from an experiment-heavy generator in which every second experiment is cached (failure propagation through pruned tasks); launch failures include a command with a NUL byte.")
 ASSUMPTIONS = ["under --stop-early nothing is demanded about the 'Skipped' section (documentation does not define it)",
                "a SIGTERMed virtual child dies at once"]
 ESSENTIAL = ["fail_exit", "fail_signal", "fail_launch_eagain", "fail_launch_enoent", "failure_through_group",
